@@ -260,3 +260,11 @@ mutant("c17-lm-transpose-stale", "C17", "R17.4/optimize::curve_fit_jac/transpose
 mutant("c17-lm-keeps-worse-trial", "C17", "R17.4/optimize::curve_fit_jac/keeps-the-better-trial", (OM, "        if resid_div < resid {\n            damping /= damping_mult;\n            evaluation = evaluation_div;\n            params = new_params_div;\n            sum_sq = resid_div;\n        } else {\n            params = new_params;\n            sum_sq = resid;\n        }\n\n        jac_analytic", "        if resid_div > resid {\n            damping /= damping_mult;\n            evaluation = evaluation_div;\n            params = new_params_div;\n            sum_sq = resid_div;\n        } else {\n            params = new_params;\n            sum_sq = resid;\n        }\n\n        jac_analytic"))
 mutant("c17-lm-evaluation-stale", "C17", "R17.4/optimize::curve_fit_jac/evaluation=f(xs,p')", (OM, "            damping /= damping_mult;\n            evaluation = evaluation_div;\n            params = new_params_div;\n            sum_sq = resid_div;\n        } else {\n            params = new_params;\n            sum_sq = resid;\n        }\n\n        jac_analytic", "            damping /= damping_mult;\n            params = new_params_div;\n            sum_sq = resid_div;\n        } else {\n            params = new_params;\n            sum_sq = resid;\n        }\n\n        jac_analytic"))
 benign("c17-lm-refactor", "C17", (OM, "            multiplied[(i, i)] *= N::one() + N::from_real(damping);\n        }\n        // Solve equation with LU", "            multiplied[(i, i)] = multiplied[(i, i)] * (N::from_real(damping) + N::one());\n        }\n        // Solve equation with LU"))
+mutant("c07-itp-signed-width-r", "C07", "R7.9/roots::itp/bracket-width-non-negative", (RM, "- (right - left).abs() / two;", "- (right - left) / two;"))
+mutant("c07-itp-signed-width-delta", "C07", "R7.9/roots::itp/bracket-width-non-negative", (RM, "let delta = k_1 * (right - left).abs().powf(k_2);", "let delta = k_1 * (right - left).powf(k_2);"))
+benign("c07-itp-width-swapped-operands", "C07", (RM, "let delta = k_1 * (right - left).abs().powf(k_2);", "let delta = k_1 * (left - right).abs().powf(k_2);"))
+mutant("c07-brent-relative-width", "C07", "R7.3/roots::brent/absolute-tolerance", (RM, "while !(f_right.abs() < tol || f_s.abs() < tol || (left - right).abs() < tol) {", "while !(f_right.abs() < tol || f_s.abs() < tol || (left - right).abs() < tol * right.abs().max(N::one())) {"))
+mutant("c03-adams-history-kept-after-growth", "C03", "R3.6/AdamsSolver::step/stale-spacing", (AD, "                // Clear the saved steps since we have changed the timestep\n                // so we can no longer use linear interpolation.\n                self.prev_values.clear();\n                self.prev_derivatives.clear();", "                // keep the saved steps"))
+mutant("c05-rk-clip-tests-dt-max", "C05", "R5.5/RungeKuttaSolver::step/pre-test-write-never-grows", (RK, "        if self.time.real() + self.dt.real() >= self.end.real() {\n            self.dt = self.end - self.time;\n        }", "        if self.time.real() + self.dt_max.real() >= self.end.real() {\n            self.dt = self.end - self.time;\n        }"))
+mutant("c17-jac-analytic-row-bound", "C17", "R17.3/optimize::jac_analytic/coverage:entry(2,0)-written", (OM, "    for row in 0..mat.column(0).len() {\n        let deriv = jac(xs[row], params);", "    for row in 0..mat.row(0).len() {\n        let deriv = jac(xs[row], params);"))
+mutant("c08-roots-jac-col-bound", "C08", "R8.1/roots::jac_finite_diff/coverage:entry", (RM, "    for col in 0..mat.row(0).len() {\n        x[col] += h;", "    for col in 1..mat.row(0).len() {\n        x[col] += h;"))
